@@ -226,7 +226,41 @@ def build_impl(ca, plat, sp, version="0", history=0):
                 side.items.pop()
             for line in mem:
                 side.items.append(ca.Address(line, platform=plat))
+    if history == 4:
+        _port_history(ca, plat, o, sp, version)
     return o
+
+
+def _port_history(ca, plat, o, sp, version):
+    """the entry first carries other ports and answers queries (anything memoised about its ports is filled), then
+    its port expressions are set back, through the public setters, to the stated ones"""
+    want = o.line
+    for port in (o.srcport, o.dstport):
+        real = port.line
+        if not real:
+            continue
+        port.line = "eq 1" if real != "eq 1" else "eq 2"
+        try:
+            other = ca.Ace(sp["text"], platform=plat, version=version)
+            o.shadow_of(other)
+            other.shadow_of(o)
+        except Exception:  # noqa
+            pass
+        how = len(real) % 3
+        if how == 0:
+            port.line = real
+        elif how == 1:
+            fresh = ca.Port(real, platform=plat, protocol=port.protocol, port_nr=port.port_nr)
+            try:
+                port.ports = list(fresh.ports)
+            except Exception:  # noqa
+                pass
+            if port.line != real:
+                port.line = real
+        else:
+            port.line = "range 1 2"
+            port.line = real
+    assert o.line == want, (o.line, want)
 
 
 # ------------------------------------------------------------------ oracle
